@@ -296,6 +296,20 @@ def check_C17(chk, tier, seed):
             chk.violation("a Time value is decoded / encoded differently when the process's local time zone is not UTC",
                           dict(case=c, env="TZ=EST5EDT", impl=short(im), under_utc=short(ref[c])))
             break
+    # eight threads at once, each taking every four-octet type through 70 000 patterns a day and a bit apart, in the dev profile
+    # (overflow checks on): what a value decodes to depends on its octets - not on what other threads decode at the same moment,
+    # not on how many values the thread has decoded before (2^16 and beyond)
+    mt = core.run_sharded([eng.harness, "codec"], eng.prelude, ["SWEEPMT 8 11170", "SWEEPMT 16 11170"][: 1 if tier == "quick" else 2], shards=1, timeout=900)
+    for c, o in zip(["SWEEPMT 8 11170", "SWEEPMT 16 11170"], mt):
+        chk.case(c, True)
+        chk.validated += 1
+        chk.count("concurrent-threads-sweep")
+        t = o.split()
+        if not (len(t) >= 3 and t[0] == "SWEPTMT" and t[2] == "0"):
+            chk.violation("values decoded on several threads at once (or beyond the 65 536th value of a thread) did not all round-trip to the closed form: " + short(o, 200),
+                          dict(case=c, impl=short(o)))
+        else:
+            chk.extra["concurrent_sweep_patterns"] = chk.extra.get("concurrent_sweep_patterns", 0) + int(t[1])
     if tier == "thorough":
         sweep32(chk, eng)
     chk.rule = ("every value of every byte lane, walking ones/zeros, boundaries and random patterns for the six 4-octet and three "
